@@ -479,18 +479,18 @@ Proof.
   destruct (fub_new n w) as [g w']. simpl. constructor; [intros []|constructor].
 Qed.
 
-Lemma fu_from_list_nodup mrg l w :
-  winv (cnt []) None w -> NoDup (blks (groups (fst (fu_from_list P mrg l w)))).
+Lemma fu_from_list_nodup mrg h l w :
+  winv (cnt []) None w -> NoDup (blks (groups (fst (fu_from_list P mrg h l w)))).
 Proof.
   intros Hw. unfold fu_from_list.
-  assert (H0 : let '(u0, w0) := (if mrg then (fu_empty, w) else fu_with_capacity (Nat.max (length l) (pMinCap P)) w) in
+  assert (H0 : let '(u0, w0) := (if mrg then (fu_empty, w) else fu_with_capacity (Nat.max h (pMinCap P)) w) in
                winv (cnt (blks (groups u0))) None w0 /\ fu_ok mrg u0 /\ NoDup (blks (groups u0))).
   { destruct mrg.
     - splits; auto; [apply fu_empty_ok | constructor].
-    - pose proof (@fu_with_capacity_spec false (Nat.max (length l) (pMinCap P)) w Hw) as H.
-      pose proof (fu_with_capacity_nodup (Nat.max (length l) (pMinCap P)) w) as Hn.
-      destruct (fu_with_capacity (Nat.max (length l) (pMinCap P)) w) as [u0 w0]. destruct H as (A & B & _). auto. }
-  destruct (if mrg then (fu_empty, w) else fu_with_capacity (Nat.max (length l) (pMinCap P)) w) as [u0 w0].
+    - pose proof (@fu_with_capacity_spec false (Nat.max h (pMinCap P)) w Hw) as H.
+      pose proof (fu_with_capacity_nodup (Nat.max h (pMinCap P)) w) as Hn.
+      destruct (fu_with_capacity (Nat.max h (pMinCap P)) w) as [u0 w0]. destruct H as (A & B & _). auto. }
+  destruct (if mrg then (fu_empty, w) else fu_with_capacity (Nat.max h (pMinCap P)) w) as [u0 w0].
   destruct H0 as (A & B & C). apply fu_push_fold_nodup; auto.
 Qed.
 
@@ -509,17 +509,17 @@ Proof.
            | |- context [fub_from_list ?l ?w] => destruct (fub_from_list l w)
            | |- context [fub_new ?c ?w] => destruct (fub_new c w)
            | |- context [fob_from_list P ?l ?w] => destruct (fob_from_list P l w)
-           | |- context [fo_from_list P ?l ?w] => destruct (fo_from_list P l w)
+           | |- context [fo_from_list P ?h ?l ?w] => destruct (fo_from_list P h l w)
            | |- context [fob_new P ?a ?b ?w] => destruct (fob_new P a b w) as [[?|] ?]
            | |- context [fo_with_capacity P ?a ?b ?w] => destruct (fo_with_capacity P a b w) as [[?|] ?]
            | |- context [join_new ?a ?l ?w] => destruct (join_new a l w)
            end; cbn [nd fst]; auto.
-  - pose proof (@fu_from_list_nodup false (mk_children inits) w Hw) as Hx.
-    destruct (fu_from_list P false (mk_children inits) w); exact Hx.
+  - pose proof (@fu_from_list_nodup false (lazy_hint p (mk_children inits)) (mk_children inits) w Hw) as Hx.
+    destruct (fu_from_list P false (lazy_hint p (mk_children inits)) (mk_children inits) w); exact Hx.
   - constructor.
   - pose proof (fu_with_capacity_nodup (p_cap p) w) as Hx. destruct (fu_with_capacity (p_cap p) w); exact Hx.
-  - pose proof (@fu_from_list_nodup true (mk_children inits) w Hw) as Hx.
-    destruct (fu_from_list P true (mk_children inits) w); exact Hx.
+  - pose proof (@fu_from_list_nodup true (lazy_hint p (mk_children inits)) (mk_children inits) w Hw) as Hx.
+    destruct (fu_from_list P true (lazy_hint p (mk_children inits)) (mk_children inits) w); exact Hx.
   - constructor.
   - pose proof (fu_with_capacity_nodup (p_cap p) w) as Hx. destruct (fu_with_capacity (p_cap p) w); exact Hx.
 Qed.
